@@ -62,7 +62,7 @@ meta("C01", level="exploration",
 @plan("C01")
 def _c01(bindir, tier, seed):
     if tier == QUICK:
-        return shards(bindir, "fmt_driver", "C01", seed, NCPU, ["--mode", "c01", "--cases", "4000"], 600)
+        return shards(bindir, "fmt_driver", "C01", seed, NCPU, ["--mode", "c01", "--cases", "2000"], 600)
     return shards(bindir, "fmt_driver", "C01", seed, NCPU, ["--mode", "c01", "--cases", "60000"], 7200) + [fuzz_job("C01", "fz_fmt", "fmt_driver", seed, 120, 8)]
 
 
@@ -88,7 +88,7 @@ def c02_macro_jobs(bindir, tier, seed):
 @plan("C02")
 def _c02(bindir, tier, seed):
     if tier == QUICK:
-        return shards(bindir, "fmt_driver", "C02", seed, NCPU, ["--mode", "c02", "--cases", "40000"], 600) + c02_macro_jobs(bindir, tier, seed)
+        return shards(bindir, "fmt_driver", "C02", seed, NCPU, ["--mode", "c02", "--cases", "20000"], 600) + c02_macro_jobs(bindir, tier, seed)
     jobs = shards(bindir, "fmt_driver", "C02", seed, NCPU, ["--mode", "c02", "--cases", "400000"], 7200) + c02_macro_jobs(bindir, tier, seed)
     # exhaustive 32-bit sweeps, 32 slices each
     n = 32
@@ -136,7 +136,7 @@ meta("C04", level="exploration",
 @plan("C04")
 def _c04(bindir, tier, seed):
     if tier == QUICK:
-        return shards(bindir, "fmt_driver", "C04", seed, NCPU, ["--mode", "c04", "--cases", "6000"], 600)
+        return shards(bindir, "fmt_driver", "C04", seed, NCPU, ["--mode", "c04", "--cases", "4000"], 600)
     return shards(bindir, "fmt_driver", "C04", seed, NCPU, ["--mode", "c04", "--cases", "60000"], 7200) + [fuzz_job("C04", "fz_fmt", "fmt_driver", seed, 120, 8)]
 
 
@@ -268,7 +268,7 @@ def q_jobs(bindir, prop, tier, seed, seq_enum=True, caps="unbounded,1,2,3", drop
     if droprace:
         jobs += shards(bindir, "queue_conc", prop + "-droprace", seed, NCPU, base + ["--mode", "droprace", "--cases", "400" if quick else "30000"], 3400)
     if blocked:
-        jobs += shards(bindir, "queue_conc", prop + "-blocked", seed, NCPU, base + ["--mode", "blocked", "--cases", "60" if quick else "4000"], 3400)
+        jobs += shards(bindir, "queue_conc", prop + "-blocked", seed, NCPU, base + ["--mode", "blocked", "--cases", "60" if quick else "4000"] + ([] if quick else ["--big"]), 3400)
     # Miri: compact histories under a random preemptive scheduler, hooks off; virtual-time quiescence
     if miri:
         if quick:
